@@ -34,7 +34,7 @@ ASSUMPTIONS = [
 from vlib import cfg
 
 APS_ACK_TIMEOUT = cfg.aps_ack_timeout()
-RETRY_DELAYS = [0.5, 1.0, 1.5]
+RETRY_DELAYS = cfg.retry_delays()  # "the fixed number of spaced retries"
 BUSY = {False: [0x72, 0xA1, 0x18], True: [0x0C03, 0x34, 0x19]}
 REFUSE = {False: [0x01, 0x66, 0x70, 0xEE], True: [0x01, 0x0C02, 0x02, 0x7777]}
 # delivery-failure statuses a confirmation may carry: DELIVERY_FAILED, generic failure, an undefined code, MAC_INDIRECT_TIMEOUT
@@ -177,7 +177,7 @@ def expected(req, v14):
     if kind == "ieee-unknown":
         return ("ValueError", 0, None)
     t = 0.0
-    for k in range(3):
+    for k in range(len(RETRY_DELAYS)):
         st_ = req["enqueue"][k] if k < len(req["enqueue"]) else 0
         if st_ == 0:
             if kind in ("multicast", "broadcast"):
@@ -192,7 +192,7 @@ def expected(req, v14):
             t += RETRY_DELAYS[k]
             continue
         return ("DeliveryError", k + 1, None)
-    return ("DeliveryError", 3, None)
+    return ("DeliveryError", len(RETRY_DELAYS), None)
 
 
 async def scenario(loop, plan, out):
@@ -308,7 +308,7 @@ def check(plan) -> Result:
             # spacing between attempts of this request
             ts = [tm for tm, name, j in sim.frames if j == i and name.startswith("send")]
             for k in range(1, len(ts)):
-                if ts[k] - ts[k - 1] < RETRY_DELAYS[k - 1] - 1e-6:
+                if ts[k] - ts[k - 1] < RETRY_DELAYS[k - 1] - 1e-6 or ts[k] - ts[k - 1] < 0.01:
                     r.bad("C12:retry-not-spaced", f"request {i}: attempts at {ts}; plan {plan}")
         if exp == "TimeoutError":
             acc = sim.accepted.get(i)
